@@ -19,15 +19,9 @@ pub open spec fn covers(srs: Seq<SlotRange>, s: int) -> bool {
 pub struct SlotMapData { pub slot_arr: Vec<Option<usize>>, pub addrs: Vec<String> }
 impl SlotMapData {
     pub open spec fn wf(&self) -> bool { forall|i: int| 0 <= i < self.slot_arr@.len() ==> ((#[trigger] self.slot_arr@[i]) matches Some(k) ==> k < self.addrs@.len()) }
-    // proved in unit c09 on the real text; here only its contract
+    // proved in unit c09 on the real text; the contract text is the header of contracts/slot_map_new.overlay.json
     #[verifier::external_body]
-    pub fn new(slot_map: HashMap<String, Vec<(usize, usize)>>) -> (r: SlotMapData)
-        requires vstd::std_specs::hash::obeys_key_model::<String>(),
-        ensures r.wf(), r.slot_arr@.len() == 16384,
-            forall|s: int| 0 <= s < 16384 ==> match #[trigger] r.slot_arr@[s] {
-                Some(i) => exists|k: String| slot_map@.contains_key(k) && k == r.addrs@[i as int] && in_ranges(slot_map@[k]@, s),
-                None => forall|k: String| slot_map@.contains_key(k) ==> !in_ranges(#[trigger] slot_map@[k]@, s),
-            },
+@NEW_HEADER@
     { unimplemented!() }
 }
 // D9b: HashMap::into_iter() yields every entry exactly once (distinct keys) in an unspecified order
@@ -44,9 +38,12 @@ pub open spec fn covers_upto(srs: Seq<SlotRange>, n: int, m: int, s: int) -> boo
 '''
 
 def build(U):
+    import json, os
+    ov = json.load(open(os.path.join(vlib.VERIF, 'contracts', 'slot_map_new.overlay.json')))
+    new_header = [op for op in ov['ops'] if op['op'] == 'header'][0]['text']
     L = U.src('src/proxy/slot.rs')
     C = U.src('src/common/cluster.rs')
-    U.add(PRE)
+    U.add(PRE.replace('@NEW_HEADER@', new_header))
     for k, n in [('struct', 'Range'), ('struct', 'RangeList'), ('struct', 'MigrationMeta'), ('enum', 'SlotRangeTag'), ('struct', 'SlotRange')]:
         U.add(vlib.pub_fields(broker_common.strip(C.item(k, n))) + '\n')
     g = C.fn('get_range_list', within=r'impl SlotRange\b')
@@ -75,16 +72,15 @@ def build(U):
         requires self.data.wf()
         ensures match r { Some(a) => slot < self.data.slot_arr@.len() && (self.data.slot_arr@[slot as int] matches Some(k) && a@ == self.data.addrs@[k as int]@), None => slot >= self.data.slot_arr@.len() || self.data.slot_arr@[slot as int] is None }''')
     U.add_fn(g)
+    from units import c09 as _c09
     U.add('''}
 impl SlotMapData {
-    // proved in unit c09 on the real text; here only its contract
+    // proved in unit c09 on the real text; the contract text is imported from that unit
     #[verifier::external_body]
-    pub fn get(&self, slot: usize) -> (r: Option<&str>)
-        requires self.wf()
-        ensures match r { Some(a) => slot < self.slot_arr@.len() && (self.slot_arr@[slot as int] matches Some(k) && a@ == self.addrs@[k as int]@), None => slot >= self.slot_arr@.len() || self.slot_arr@[slot as int] is None }
+    @GET_HEADER@
     { unimplemented!() }
 }
-''')
+'''.replace('@GET_HEADER@', _c09.GET_HEADER))
     # ---- which command element is the key that gets hashed (CommandInfo::get_key, src/proxy/command.rs)
     CM = U.src('src/proxy/command.rs')
     dct = re.sub(r'\n\s*//[^\n]*', '', broker_common.strip(CM.item('enum', 'DataCmdType')))
